@@ -31,7 +31,7 @@ CfgsC17 == { MkCfg(dk, 0, rmu, vs, kh) : dk \in BoolSet, rmu \in BoolSet, vs \in
 
 Obs == [ cfg |-> cfg, batches |-> batches, clientClosed |-> cliClosed, states |-> states,
          resps |-> resps, disp |-> disp, srvClosed |-> srvClosed,
-         hijacked |-> (hij # "none"), hijRest |-> (IF hij = "none" THEN <<>> ELSE hij.rest),
+         hijacked |-> hij.on, hijRest |-> hij.rest,
          nreq |-> sentCount ]
 
 Emit == ~Terminal \/ PrintT("BEHAVIOUR " \o ToJson(Obs))
